@@ -4,6 +4,7 @@ import (
 	"fmt"
 	"go/types"
 	"math/big"
+	"os"
 	"sort"
 	"strings"
 
@@ -136,6 +137,11 @@ func (m *Machine) drain(it *Item, r Iface) Text {
 			sl := m.Load(sub, p, slT).(SliceV)
 			vals := m.possibleInts(sub, sl.Len)
 			if len(vals) == 0 {
+				if m.Feasible != nil && !m.Feasible(sub.G) {
+					// this alternative cannot happen under the current path condition
+					t = m.EmptyText()
+					break
+				}
 				m.fail("drain: multiReader with unbounded symbolic part count: len=%s", m.C.String(sl.Len))
 			}
 			n := vals[len(vals)-1]
@@ -424,7 +430,9 @@ type ghostRec struct {
 	vals []Value
 }
 
-func (m *Machine) logGhost(tag string, v T) { m.ghostLog = append(m.ghostLog, ghostRec{m.C.True, tag, []Value{v}}) }
+func (m *Machine) logGhost(tag string, v T) {
+	m.ghostLog = append(m.ghostLog, ghostRec{m.C.True, tag, []Value{v}})
+}
 func (m *Machine) logGhostV(tag string, vs []Value) {
 	m.ghostLog = append(m.ghostLog, ghostRec{m.C.True, tag, vs})
 }
@@ -792,7 +800,28 @@ func (m *Machine) possibleInts(it *Item, t T) []int64 {
 	}
 	walk(t)
 	if !okAll {
-		return nil
+		// not a tree of constants (sums of guarded values, ...): enumerate a small range with the solver
+		if m.Feasible == nil {
+			if os.Getenv("VCHECK_DEBUG") != "" {
+				fmt.Fprintln(os.Stderr, "possibleInts: no solver")
+			}
+			return nil
+		}
+		const hi = 12
+		c := m.C
+		if m.Feasible(c.And(it.G, c.Or(m.slt(t, m.IntC(0)), m.slt(m.IntC(hi), t)))) {
+			if os.Getenv("VCHECK_DEBUG") != "" {
+				fmt.Fprintln(os.Stderr, "possibleInts: out of range feasible")
+			}
+			return nil
+		}
+		var out []int64
+		for k := int64(0); k <= hi; k++ {
+			if m.Feasible(c.And(it.G, c.Eq(t, m.IntC(k)))) {
+				out = append(out, k)
+			}
+		}
+		return out
 	}
 	var out []int64
 	for k := range seen {
